@@ -563,6 +563,10 @@ func (p *Parser) term0Atom(maxPriority Integer) (Term, error) {
 	if err != nil {
 		return nil, err
 	}
+	// A quoted atom is the atom, whatever it spells: '?' is not a placeholder.
+	p.backup()
+	quoted := p.current().kind == tokenQuoted || p.current().kind == tokenDoubleQuotedList
+	_, _ = p.next()
 
 	if a == atomMinus {
 		t, err := p.next()
@@ -590,7 +594,7 @@ func (p *Parser) term0Atom(maxPriority Integer) (Term, error) {
 		return nil, errExpectation
 	}
 
-	if p.placeholder != 0 && t == p.placeholder {
+	if p.placeholder != 0 && t == p.placeholder && !quoted {
 		if len(p.args) == 0 {
 			return nil, errPlaceholder
 		}
